@@ -52,6 +52,20 @@ E01(g_vk < __CPROVER_old(self->data.size) ==> self->data.data[g_vk] == (char)g_v
 E01((g_vk >= __CPROVER_old(self->data.size) && g_vk < self->data.size) ==> self->data.data[g_vk] == ((const char*)data)[g_vk - __CPROVER_old(self->data.size)])
 __CPROVER_assigns(self->data.size, __CPROVER_object_whole(self->data.data));
 
+/* the std::string overload: all size() bytes of the block, zero bytes included */
+size_t nondet_verif_cstrlen(void);
+extern size_t g_zk;     /* ghost index for "no NUL before the first NUL" */
+static inline size_t verif_cstrlen(const char* p, size_t size)
+{ size_t n = nondet_verif_cstrlen(); __CPROVER_assume(n <= size && (n == size || p[n] == 0) && (g_zk < n ==> p[g_zk] != 0)); return n; }
+void StringWriter_write_str(StringWriter* self, const vstr* data)
+SW_REQ(self) __CPROVER_requires(__CPROVER_is_fresh(data, sizeof(vstr))) __CPROVER_requires(data->size <= RD_MAX && __CPROVER_is_fresh(data->data, data->size))
+__CPROVER_requires(data->size <= self->data.cap - self->data.size)
+E02(verif_exc == 0 && self->data.size <= self->data.cap)
+E01(self->data.size == __CPROVER_old(self->data.size) + data->size)
+E01(g_vk < __CPROVER_old(self->data.size) ==> self->data.data[g_vk] == (char)g_vval)
+E01((g_vk >= __CPROVER_old(self->data.size) && g_vk < self->data.size) ==> self->data.data[g_vk] == data->data[g_vk - __CPROVER_old(self->data.size)])
+__CPROVER_assigns(self->data.size, __CPROVER_object_whole(self->data.data));
+
 void StringWriter_extend_to(StringWriter* self, size_t size, char v)
 SW_REQ(self)
 E02(size <= self->data.cap ? (verif_exc == 0 && self->data.size == size) : verif_exc == EXC_length_error)
